@@ -447,6 +447,11 @@ impl Unifiable {
                 Unifiable::SComplex(new_terms)
             },
             Unifiable::SLinkedList{term: _, next: _, count: _, tail_var: _} => {
+                // The empty list has no variables. (Rebuilding it below would
+                // produce a list of one element, which is no longer empty.)
+                if let Unifiable::SLinkedList{term, next: _, count: _, tail_var: _} = &self {
+                    if **term == Unifiable::Nil { return self; }
+                }
                 let mut this_list = self;
                 let mut new_terms = vec![];
                 let mut vbar = false;  // vertical bar |
